@@ -166,7 +166,7 @@ static void float_exec(const uint8_t* d, size_t n) {
 const struct vh_driver drv_float = {"float", float_run, float_exec, "float decode/encode exactness (C15)"};
 
 /* ------------------------------------------------------------------- C16 */
-static uint64_t g_valid, g_invalid, g_entry[3], g_reattach, g_copy_route;
+static uint64_t g_valid, g_invalid, g_entry[3], g_reattach, g_copy_route, g_cstring_route;
 
 /* descriptor: entry mask byte, then the text bytes */
 static void utf8_case(const uint8_t* s, size_t n, int entries) {
@@ -178,13 +178,24 @@ static void utf8_case(const uint8_t* s, size_t n, int entries) {
   size_t want = valid ? cnt : 0;
   if (valid) g_valid++; else g_invalid++;
   uint8_t* ex = vh_exact(s, n);
-  if (entries == 15) entries = 31; /* the full set of routes includes the copy */
-  for (int e = 0; e < 5; e++) {
+  if (entries == 15) entries = 63; /* the full set of routes includes the copy and the NUL-terminated builder */
+  else if (!(entries & 14)) entries |= 32; /* the cheap one-route cases also go through the NUL-terminated builder */
+  for (int e = 0; e < 6; e++) {
     if (!(entries & (1 << e))) continue;
     cbor_item_t* it = NULL;
     const char* how = e == 0 ? "cbor_build_stringn" : e == 1 ? "cbor_string_set_handle" : e == 2 ? "cbor_load" : e == 3 ? "cbor_string_set_handle on an item that held valid text before (same block, edited in place)"
-                      : "cbor_copy of an item whose bytes were edited in place through its handle (the copy is a new text string holding these bytes)";
-    if (e == 4) {
+                      : e == 4 ? "cbor_copy of an item whose bytes were edited in place through its handle (the copy is a new text string holding these bytes)"
+                      : "cbor_build_string (NUL-terminated)";
+    if (e == 5) {
+      /* the strlen-based builder: every sequence without an embedded NUL is a C string */
+      if (n && memchr(s, 0, n)) continue;
+      char* z = malloc(n + 1);
+      if (n) memcpy(z, s, n);
+      z[n] = 0;
+      it = cbor_build_string(z);
+      free(z);
+      g_cstring_route++;
+    } else if (e == 4) {
       /* the headers allow editing a string's data through its handle; a copy taken afterwards is a new item whose count
        * is a function of the bytes IT holds, whatever number the source still caches */
       cbor_item_t* src = NULL;
@@ -391,6 +402,7 @@ static void utf8_run(void) {
   vh_count_dyn("entry.load", g_entry[2]);
   vh_count_dyn("entry.set_handle_again_on_same_item", g_reattach);
   vh_count_dyn("entry.copy_of_item_edited_in_place", g_copy_route);
+  vh_count_dyn("entry.build_string_nul_terminated", g_cstring_route);
   vh_set_rule("each case is a byte sequence attached as a definite text string through build_stringn / set_handle / cbor_load / a second set_handle on an item that held valid text; the reported code point count is compared with an independent RFC 3629 validator (count if valid, else 0), and length and bytes must be unchanged; non-trivial = non-empty sequence; distinct by construction in the exhaustive sweep (hashed)");
 }
 static void utf8_exec(const uint8_t* d, size_t n) {
